@@ -383,7 +383,7 @@ func TestVerifC39(t *testing.T) {
 		}
 		total := c39Budget(start)
 		left := total * time.Duration(weight(pl)) / time.Duration(rest)
-		if floor := vsched.Pick(4*time.Second, 40*time.Second); left < floor {
+		if floor := vsched.Pick(8*time.Second, 40*time.Second); left < floor {
 			left = floor // never cap a small scenario because it comes early
 		}
 		if left > total {
